@@ -77,13 +77,13 @@ def work(args):
                 st, tt = "unsat", 0.0
                 for pc in ob.alts:
                     ob.pc = pc
-                    r = eng.solve(ob, c, timeout)
+                    r = eng.solve(ob, c, 2000)
                     tt += r["time"]
                     if r["status"] == "sat":
                         st = "sat"
                         break
                     if r["status"] == "unknown":
-                        st = "unknown"
+                        st = "inconclusive"
                 r = {"status": st, "time": tt, "backend": r["backend"] if ob.alts else "z3"}
             else:
                 r = eng.solve(ob, c, timeout)
